@@ -30,7 +30,9 @@
    development, MK = Model/KFL.v, PK = Proofs/KFL.v); RTL structures: section E
    (on top of C17's wiring theorem).  Section G discharges the "initial value
    is feasible" hypotheses of section A from the C10 initialiser models
-   (C03_reachable_feasible_xxx_from_init). *)
+   (C03_reachable_feasible_xxx_from_init).  Section H composes everything:
+   configuration -> any history -> every input (C03_xxx_end_to_end), tied to the
+   real builders by Harness/H_C03E2E.v. *)
 From TFL Require Import Model.Premade Proofs.Premade.
 From TFL Require Import Proofs.PWLEval Proofs.LinearEval Proofs.LatticeInterp.
 From TFL Require Import Proofs.LatticeSpecFacts Proofs.LatticeFinalize.
@@ -742,3 +744,161 @@ Example C03_init_values :
   pwl_spec_init ex_pwl_in = [2; -(2#3); -(4#3)] /\
   MK.p_kern (kfl_spec_init (ex_kfl [MK.StepS; MK.StepK])) = [[ [[1#4; 3#4]]; [[3#4; 1#4]] ]].
 Proof. split. exact (proj1 ex_lat_values). split. exact (proj1 ex_pwl_values). exact (proj1 (ex_kfl_value _)). Qed.
+
+(* ---------------------------------------------------------------------- *)
+(* H. END TO END: configuration -> any history -> every input                 *)
+(*    (Proofs/PremadeEndToEnd.v)                                              *)
+(* ---------------------------------------------------------------------- *)
+From TFL Require Import Proofs.PremadeEndToEnd.
+(* Sections A-G are separate layers; here they are composed.  No hypothesis about any weight (initial or
+   later), no hypothesis about calibrator monotonicity or range: everything is derived from the validity of
+   the model description, the well-shapedness of the history, and the guards tied to known findings.
+   Vocabulary:
+     lval / ldesc / lvar / lshape / linv   one state machine for all layers of a model: a state holds one value
+                         per LAYER (VPwl kernel-column + learned missing output, VCat, VLat kernel tensor,
+                         VLin kernel + bias); Update hands every layer ARBITRARY raw values of the right kind and
+                         shape (lshape) and then applies every constraint; Restore / Init as in section A
+     cal_spec            CSPwl pwl_spec default_value | CSCat cat_spec default_value: a feature's calibrator layer
+     cal_wired f always r oi c   build_multi_unit_calibration_layers: PWL monotonicity = calibrator_mono of the
+                         feature's, output / init range = _output_range(r), UniformOutputInitializer, specs valid
+                         (pwl_spec_ok / cat_spec_ok of section G); categorical monotonicities = the pair list
+     cal_d2_free c       guard of known finding D2: a PWL calibrator is not both monotone and convex / concave
+     cl_model / cl_ok    tfl.premade.CalibratedLattice (all_vertices): features, calibrators with range
+                         [0, lattice_size_i - 1], one-unit lattice with monotonicities = map lattice_dim_mono features,
+                         LinearInitializer, range [0,1] under an output calibrator else [output_min, output_max],
+                         lat_spec_ok (section G: cfg_valid, block_ok, NOT the D1 class, oi_in_bounds = D65 guard),
+                         output calibrator as build_output_calibration_layer creates it (outc_wired)
+     cl_descs / cl_vars  the layers in state order: calibrators, lattice, output calibrator
+     cl_eval md st x     cal_lattice_eval of the weights found in state st
+     cs_regular c x      x is a non-missing input of the feature (config level: x <> default_value)
+     cs_default c        default_input_value of a categorical calibrator
+   D1: lat_spec_ok excludes only the D1 class; the premade configurations generated by the harness have no
+   trusts at all.  Fixed input keypoints (input_keypoints_type 'fixed'). *)
+Theorem C03_calibrated_lattice_end_to_end : forall md ops st,
+  cl_ok md -> ops_shaped lval ldesc lshape (cl_descs md) ops -> In st (run (cl_vars md) ops) ->
+  let F := cl_eval md st in let n := length (cl_feats md) in
+  (forall i x v, (i < n)%nat -> length x = n ->
+     cs_regular (nth i (cl_cals md) dcs) (nth i x 0) -> cs_regular (nth i (cl_cals md) dcs) v -> nth i x 0 <= v ->
+     (nth i (cl_feats md) (MNum 0) = MNum 1 -> F x <= F (set_nth i v x)) /\
+     (nth i (cl_feats md) (MNum 0) = MNum (-1) -> F (set_nth i v x) <= F x)) /\
+  (forall i x ps a b, (i < n)%nat -> length x = n ->
+     nth i (cl_feats md) (MNum 0) = MPairs ps -> In (a, b) ps ->
+     cs_default (nth i (cl_cals md) dcs) <> Some (Z.of_nat a) -> cs_default (nth i (cl_cals md) dcs) <> Some (Z.of_nat b) ->
+     F (set_nth i (qn a) x) <= F (set_nth i (qn b) x)) /\
+  (forall lo x, cl_min md = Some lo -> length x = n -> lo <= F x) /\
+  (forall hi x, cl_max md = Some hi -> length x = n -> F x <= hi).
+Proof. exact calibrated_lattice_end_to_end. Qed.
+Print Assumptions C03_calibrated_lattice_end_to_end.
+
+(* all histories of the example: the model description is valid, the hostile 2-step history is well-shaped,
+   and the model realised by the final state is evaluated (vm_compute): increasing in feature 0 in and beyond the
+   keypoint range (strictly somewhere), ordered along the pair (0, 2), missing value / unknown bucket inside [-2, 2] *)
+Example C03_calibrated_lattice_hypotheses_satisfiable :
+  cl_ok ex_cl /\ ops_shaped lval ldesc lshape (cl_descs ex_cl) ex_cl_ops /\
+  In (final (cl_vars ex_cl) ex_cl_ops) (run (cl_vars ex_cl) ex_cl_ops).
+Proof. split. exact ex_cl_ok. split. exact ex_cl_ops_shaped. apply final_in_run. Qed.
+Example C03_calibrated_lattice_example_values :
+  let F := cl_eval ex_cl (final (cl_vars ex_cl) ex_cl_ops) in
+  Qle_bool (F [0; 0]) (F [1#2; 0]) && Qle_bool (F [1#2; 0]) (F [2; 0]) && Qle_bool (F [2; 0]) (F [100; 0]) &&
+  Qle_bool (F [1; 0]) (F [1; 2]) &&
+  Qle_bool (-(2)) (F [-(1); -(1)]) && Qle_bool (F [-(1); -(1)]) 2 && Qle_bool (-(2)) (F [7; 5]) && Qle_bool (F [7; 5]) 2 &&
+  negb (Qle_bool (F [100; 0]) (F [0; 0])) = true.
+Proof. exact ex_cl_values. Qed.
+
+(* tfl.premade.CalibratedLinear.
+     cn_model / cn_ok    features, calibrators with range MODEL_OUTPUT (INPUT_TO_FINAL_CALIBRATION under an output
+                         calibrator), the Linear layer of build_linear_layer: weighted_average = (a bound or output
+                         calibration is configured) -> monotonicities all 1, normalization_order 1, no bias; otherwise
+                         monotonicities from the features, no normalization, bias iff use_bias; lin_valid;
+                         output_min <= output_max; D65 guard inside pwl_spec_ok of the input calibrators
+     cn_kernel md st     the Linear kernel found in state st
+     lin_collapsed k     sum |k_i| < the normalization epsilon: the state in which the L1 normalization is skipped
+                         (C06_norm_one_or_zero); the state [0; 0] of C03_bounded_refuted_weighted_average_zero
+     cs_domain c x       x is a number (numeric feature) / a bucket index or default_value (categorical feature)
+   Monotonicity needs no guard.  Bounds: unconditional under an output calibrator; without one they hold outside
+   known findings D2 (cal_d2_free) and D32 (not lin_collapsed) - see the second Example below: the guard is necessary. *)
+Theorem C03_calibrated_linear_end_to_end : forall md ops st,
+  cn_ok md -> ops_shaped lval ldesc lshape (cn_descs md) ops -> In st (run (cn_vars md) ops) ->
+  let F := cn_eval md st in let n := length (cn_feats md) in
+  (forall i x v, (i < n)%nat -> length x = n ->
+     cs_regular (nth i (cn_cals md) dcs) (nth i x 0) -> cs_regular (nth i (cn_cals md) dcs) v -> nth i x 0 <= v ->
+     (nth i (cn_feats md) (MNum 0) = MNum 1 -> F x <= F (set_nth i v x)) /\
+     (nth i (cn_feats md) (MNum 0) = MNum (-1) -> F (set_nth i v x) <= F x)) /\
+  (forall i x ps a b, (i < n)%nat -> length x = n ->
+     nth i (cn_feats md) (MNum 0) = MPairs ps -> In (a, b) ps ->
+     cs_default (nth i (cn_cals md) dcs) <> Some (Z.of_nat a) -> cs_default (nth i (cn_cals md) dcs) <> Some (Z.of_nat b) ->
+     F (set_nth i (qn a) x) <= F (set_nth i (qn b) x)) /\
+  (forall lo hi x, cn_min md = Some lo -> cn_max md = Some hi -> length x = n ->
+     (cn_outc md = None ->
+        (forall i, (i < n)%nat -> cal_d2_free (nth i (cn_cals md) dcs)) /\ ~ lin_collapsed (cn_kernel md st) /\
+        (lo <= 0 <= hi \/ forall i, (i < n)%nat -> cs_domain (nth i (cn_cals md) dcs) (nth i x 0))) ->
+     lo <= F x <= hi).
+Proof. exact calibrated_linear_end_to_end. Qed.
+Print Assumptions C03_calibrated_linear_end_to_end.
+
+(* satisfiable; and after the hostile second step the SAME valid model is collapsed and outputs 0 < output_min = 1 *)
+Example C03_calibrated_linear_hypotheses_satisfiable :
+  cn_ok ex_cn /\ ops_shaped lval ldesc lshape (cn_descs ex_cn) [Update ex_cn_raw1; Update ex_cn_raw2] /\
+  (lin_collapsed [0; 0] /\ forall n, (1 <= n)%nat -> ~ lin_collapsed (premade_linear_init n)).
+Proof. split. exact ex_cn_ok. split. exact ex_cn_ops_shaped. exact d32_state_collapsed. Qed.
+Example C03_calibrated_linear_example_values :
+  let s1 := final (cn_vars ex_cn) [Update ex_cn_raw1] in
+  let s2 := final (cn_vars ex_cn) [Update ex_cn_raw1; Update ex_cn_raw2] in
+  (cn_kernel ex_cn s1 = [3#4; 1#4] /\ ~ lin_collapsed (cn_kernel ex_cn s1) /\
+   Qle_bool 1 (cn_eval ex_cn s1 [0; 0]) && Qle_bool (cn_eval ex_cn s1 [0; 0]) (cn_eval ex_cn s1 [2; 0]) &&
+   Qle_bool (cn_eval ex_cn s1 [2; 0]) (cn_eval ex_cn s1 [2; 1]) && Qle_bool (cn_eval ex_cn s1 [2; 1]) 2 = true) /\
+  (cn_kernel ex_cn s2 = [0; 0] /\ lin_collapsed (cn_kernel ex_cn s2) /\ cn_eval ex_cn s2 [2; 1] < 1).
+Proof. exact ex_cn_values. Qed.
+
+(* tfl.premade.CalibratedLattice, parameterization = 'kronecker_factored'.
+     ck_model / ck_ok    calibrators with range [0, L - 1] (L the common lattice size), the KFL layer of section G
+                         (kfl_spec: one unit, monotonicities = kfl_monos_of features, clip_inputs False, bounds and
+                         init range from _output_range, uniform-draw oracle inside the init range), kfl_spec_ok.
+   kfl_spec_ok carries the guard of known finding D57: every update applies BOTH KFL constraints (ks_steps), as in
+   C03_reachable_feasible_kfl; C03_kfl_legacy_layer_order_is_update says which optimizer calls do. *)
+Theorem C03_calibrated_kfl_end_to_end : forall md ops st,
+  ck_ok md -> ops_shaped lval ldesc lshape (ck_descs md) ops -> In st (run (ck_vars md) ops) ->
+  let F := ck_eval md st in let n := length (ck_feats md) in
+  (forall i x v, (i < n)%nat -> length x = n ->
+     cs_regular (nth i (ck_cals md) dcs) (nth i x 0) -> cs_regular (nth i (ck_cals md) dcs) v -> nth i x 0 <= v ->
+     (nth i (ck_feats md) (MNum 0) = MNum 1 -> F x <= F (set_nth i v x)) /\
+     (nth i (ck_feats md) (MNum 0) = MNum (-1) -> F (set_nth i v x) <= F x)) /\
+  (forall i x ps a b, (i < n)%nat -> length x = n ->
+     nth i (ck_feats md) (MNum 0) = MPairs ps -> In (a, b) ps ->
+     cs_default (nth i (ck_cals md) dcs) <> Some (Z.of_nat a) -> cs_default (nth i (ck_cals md) dcs) <> Some (Z.of_nat b) ->
+     F (set_nth i (qn a) x) <= F (set_nth i (qn b) x)) /\
+  (forall lo hi x, ck_min md = Some lo -> ck_max md = Some hi -> length x = n -> lo <= F x <= hi).
+Proof. exact calibrated_kfl_end_to_end. Qed.
+Print Assumptions C03_calibrated_kfl_end_to_end.
+
+Example C03_calibrated_kfl_hypotheses_satisfiable :
+  (ck_ok (ex_ck [MK.StepS; MK.StepK]) /\ ck_ok (ex_ck [MK.StepK; MK.StepS])) /\
+  forall steps, ops_shaped lval ldesc lshape (ck_descs (ex_ck steps)) [Update ex_ck_raw; Restore 0; Update ex_ck_raw].
+Proof. split. exact ex_ck_ok. exact ex_ck_history. Qed.
+
+(* tfl.premade.CalibratedLatticeEnsemble, explicit lattices (also what the random and Crystals structures leave in
+   the config), all_vertices, outputs averaged (use_linear_combination False).
+     en_model / en_ok    calibrator UNITS (shared or separate), per lattice: features read, calibrator unit per
+                         dimension (range [0, lattice_size - 1], D2 guard), Lattice layer as in cl_ok (lat_spec_ok)
+     en_reader md i u    calibrator unit u stands in front of a lattice dimension that reads feature i
+   A lattice may read a feature at several positions. *)
+Theorem C03_ensemble_end_to_end : forall md ops st,
+  en_ok md -> ops_shaped lval ldesc lshape (en_descs md) ops -> In st (run (en_vars md) ops) ->
+  let F := en_eval md st in let n := length (en_feats md) in
+  (forall i x v, (i < n)%nat -> length x = n ->
+     (forall u, en_reader md i u -> cs_regular (nth u (en_cals md) dcs) (nth i x 0) /\ cs_regular (nth u (en_cals md) dcs) v) ->
+     nth i x 0 <= v ->
+     (nth i (en_feats md) (MNum 0) = MNum 1 -> F x <= F (set_nth i v x)) /\
+     (nth i (en_feats md) (MNum 0) = MNum (-1) -> F (set_nth i v x) <= F x)) /\
+  (forall i x ps a b, (i < n)%nat -> length x = n ->
+     nth i (en_feats md) (MNum 0) = MPairs ps -> In (a, b) ps ->
+     (forall u, en_reader md i u -> cs_default (nth u (en_cals md) dcs) <> Some (Z.of_nat a) /\
+                                    cs_default (nth u (en_cals md) dcs) <> Some (Z.of_nat b)) ->
+     F (set_nth i (qn a) x) <= F (set_nth i (qn b) x)) /\
+  (forall lo hi x, en_min md = Some lo -> en_max md = Some hi -> lo <= F x <= hi).
+Proof. exact ensemble_end_to_end. Qed.
+Print Assumptions C03_ensemble_end_to_end.
+
+Example C03_ensemble_hypotheses_satisfiable :
+  en_ok ex_en /\ ops_shaped lval ldesc lshape (en_descs ex_en) [Update ex_en_raw; Init; Restore 1].
+Proof. split. exact ex_en_ok. exact ex_en_history. Qed.
